@@ -237,7 +237,7 @@ PROPS["C03"] = {
 }
 PROPS["C03"]["parts"][0]["quick"]["sample"] = 900
 
-_G_FAIL = dgen(NEPs="{1, 2}", GKinds='{"ok", "http", "http_big", "http_alt", "http_text", "http_empty", "refuse", "reset_pre"}', Balancers='{"priority"}',
+_G_FAIL = dgen(NEPs="{1, 2}", GKinds='{"ok", "http", "http_big", "http_alt", "http_text", "http_empty", "st099", "refuse", "reset_pre"}', Balancers='{"priority"}',
                Routes='{"proxy", "provider", "anthropic", "anthropic_stream"}', ReqModels='{"m1", "mx", "mctl"}',
                BootKinds='{"up", "sick"}')
 _G_FAIL_NATIVE = dgen(NEPs="{1, 2}", GKinds='{"http", "http_alt", "refuse", "reset_pre"}', Balancers='{"priority"}',
